@@ -64,7 +64,7 @@ def keys_along(acts):
     out = []
     for i, a in enumerate(acts):
         n, b = a[0], a[1]
-        c = cfg.setdefault(b, {"align": "none", "stable": "none", "scalar": 0, "coup": 0})
+        c = cfg.setdefault(b, {"align": "none", "stable": "none", "scalar": 0, "coup": 0, "naming": "default"})
         ch = choice.setdefault(b, {})
         perm.setdefault(b, 0)
         if n == "SetAlign":
@@ -75,6 +75,8 @@ def keys_along(acts):
             c["scalar"] = int(a[2])
         elif n == "SetCoup":
             c["coup"] = int(a[2])
+        elif n == "SetNaming":
+            c["naming"] = a[2]
         elif n == "Assign":
             ch[a[2]] = a[3]
         elif n == "Permutate":
@@ -96,7 +98,8 @@ def pair_histories(alphabet):
 
         def conf(b, K):
             cfg, choice, perm = K
-            acts = [["SetAlign", b, cfg["align"]], ["SetStable", b, cfg["stable"]], ["SetScalar", b, cfg["scalar"]], ["SetCoup", b, cfg["coup"]]]
+            acts = [["SetAlign", b, cfg["align"]], ["SetStable", b, cfg["stable"]], ["SetScalar", b, cfg["scalar"]], ["SetCoup", b, cfg["coup"]],
+                    ["SetNaming", b, cfg.get("naming", "default")]]
             acts += [["Assign", b, n, choice.get(n, "none")] for n in ("R1", "R2")]
             if perm:
                 acts.append(["Permutate", b])
@@ -125,20 +128,20 @@ def run(chk, replay=None):
     chk.add_tlc("design_exhaustive", res)
     if not res.ok:
         raise Machinery(f"Builder design violates {res.violated}")
-    if any(res.coverage.get(a, 0) == 0 for a in ("SetAlign", "SetStable", "SetScalar", "SetCoup", "Assign", "Permutate", "Formulate")):
+    if any(res.coverage.get(a, 0) == 0 for a in ("SetAlign", "SetStable", "SetScalar", "SetCoup", "SetNaming", "Assign", "Permutate", "Formulate")):
         raise Machinery(f"vacuous: action coverage {res.coverage}")
-    for dev in ("DevPinned", "DevNoReset", "DevResetAtEnd"):
+    for dev in ("DevPinned", "DevNoReset", "DevResetAtEnd", "DevSharedNameMap"):
         r = tlc.run("Builder_MC", MC_CFG.format(**small, ops=6, dev=dev, props="INVARIANT Pure\n"), workers=4, timeout=600)
         if r.ok:
             raise Machinery(f"Builder model insensitive to deviation {dev}")
-    chk.part("deviation_sensitivity", DpdCacheAliasing="violates Pure", NoReset="violates Pure", ResetAtEnd="violates Pure")
+    chk.part("deviation_sensitivity", DpdCacheAliasing="violates Pure", NoReset="violates Pure", ResetAtEnd="violates Pure", SharedNameMap="violates Pure")
 
     # 2. behaviours
     big = dict(aligns='{"none", "axis", "dpd1", "dpd2"}', stables='{"none", "all", "one", "bogus"}', names='{"R1", "R2"}', tags='{"none", "bw", "bwff"}')
     nsim = 60 if tier == "thorough" else 12
     behs = tlc.simulate("Builder_MC", MC_CFG.format(**big, ops=14, dev="DevNone", props=""), num=nsim, depth=15, seed=chk.seed + 3, with_states=False)
     histories = [spec_actions(b) for b in behs]
-    base = {"align": "none", "stable": "none", "scalar": 0, "coup": 0}
+    base = {"align": "none", "stable": "none", "scalar": 0, "coup": 0, "naming": "default"}
     alphabet = [
         [dict(base), {}, 0],
         [dict(base, align="dpd1"), {}, 0],
@@ -148,6 +151,8 @@ def run(chk, replay=None):
         [dict(base, align="axis", stable="one"), {}, 0],
         [dict(base, stable="all", coup=1), {"R1": "bw"}, 0],
         [dict(base), {}, 1],
+        [dict(base, naming="parent"), {}, 0],       # naming options of the amplitude name generator
+        [dict(base, naming="nochild", coup=1), {}, 0],
         [dict(base, stable="bogus", coup=1), {"R1": "bwff"}, 0],   # formulate() raises half-way
     ]
     if tier == "thorough":
